@@ -94,7 +94,11 @@ Inductive stmt :=
 | SAtRoot (sels : option (list sel)) (body : list stmt)
 | SError (msg : bytes)
 | SIf (c : bool) (t e : list stmt)
-| SLoop (n : nat) (body : list stmt)            (* @each over n items *)
+| SLoop (n : nat) (body : list stmt)            (* @each over n items, body does not use the variable *)
+| SEach (proto : list stmt) (bodies : list (list stmt))
+    (* @each / @for / @while whose body tests the loop variable: `bodies` is the body as it
+       runs in each iteration (conditions on the variable decided), `proto` the body as
+       check_body sees it *)
 | SInclude (m : nat) (content : option (list stmt))
 | SContent.
 
@@ -349,6 +353,13 @@ Fixpoint eval_item (fuel : nat) (mixins : list (list stmt)) (compressed : bool)
            | O => Ok st
            | S k' => bind (body cenv ctx b st) (loop k')
            end) k st
+    | SEach proto bodies =>
+        if negb (check_body BControl proto) then Err EAtRule else
+        (fix each (bs : list (list stmt)) (st : dstate) : res dstate :=
+           match bs with
+           | [] => Ok st
+           | b :: r => bind (body cenv ctx b st) (each r)
+           end) bodies st
     | SInclude m content =>
         match nth_error mixins m with
         | None => Err EUndefMixin
